@@ -53,7 +53,21 @@ func (c *Ctx) storeClasses(r *Reconcile) {
 				if ok, _ := st.Implies(fill); ok {
 					c.OK("C03.1-W-fresh-context", name, as.Pos(), "vacancy fill: "+fill.String())
 				} else if ok, _ := st.Implies(repl); ok {
-					c.OK("C03.1-W-fresh-context", name, as.Pos(), "replacement of a finished pod: "+repl.String())
+					// the finished pod must have been deleted in this iteration: the store is reachable only through a delete of the same cell
+					passed := false
+					for _, d := range r.Deletes {
+						if fn.Term(d.Args[1]).Key() != fn.Term(lhs).Key() || !contains(innermostLoop(r.FI.Decl.Body, as), d) {
+							continue
+						}
+						loop := innermostLoop(r.FI.Decl.Body, as)
+						start := loopBody(loop).List[0]
+						aU := fn.FromUntil(start, an.StateBefore(start), stmtOf(r.FI.Decl.Body, d))
+						if !aU.StateBefore(as).Reachable() {
+							passed = true
+						}
+					}
+					c.Check(passed, "C03.1-W-fresh-context", name, as.Pos(), "replacement of a finished pod, reachable only through the delete of that same cell: "+repl.String(),
+						"a finished pod's cell is overwritten by a fresh pod on a path that does not delete the finished pod first (a create at an occupied ordinal follows)")
 				} else {
 					_, wit := st.Implies(gf.Or(fill, repl))
 					c.Bad("C03.1-W-fresh-context", name, as.Pos(), "a fresh pod enters the wanted slice neither at a vacant desired index nor in place of a Failed/Succeeded pod; facts: "+clip(wit, 500))
